@@ -124,6 +124,15 @@ func pSavedClean(args []string) string {
 	if err := a.Run(root); err != nil {
 		return "skip"
 	}
+	// the assembled tree itself (what `utk img ... save out validate` sees) ...
+	vt := &visitors.Validate{}
+	if err := vt.Run(root); err != nil {
+		return "FAIL validate-run-error-on-assembled-tree " + clip(err.Error())
+	}
+	if len(vt.Errors) != 0 {
+		return fmt.Sprintf("FAIL false-alarm-on-assembled-tree class=%s n=%d %s", classOf(vt.Errors[0]), len(vt.Errors), clip(vt.Errors[0].Error()))
+	}
+	// ... and the saved bytes, parsed again
 	saved := append([]byte{}, root.Buf()...)
 	errs, perr := runValidate(saved)
 	if perr != nil {
@@ -247,6 +256,41 @@ func wellFormedVol(v *uefigen.Vol) {
 	}
 }
 
+// largeForms turns files of FFSv3 volumes into the large form (32-byte header, size field 0xFFFFFF,
+// 64-bit size, attribute bit 0) although they are small: legal FFSv3, kept by fiano for opaque files
+// and rewritten in the small form for files with sections. With force, FFSv2 volumes become FFSv3.
+func largeForms(r *Rng, v *uefigen.Vol, force bool) {
+	if force && v.FSGUID == uefigen.FFS2 {
+		v.FSGUID = uefigen.FFS3
+	}
+	for _, f := range v.Files {
+		if v.FSGUID == uefigen.FFS3 && !f.IsPad && r.Chance(1, 2) {
+			f.LargeForm = true
+		}
+		for _, s := range f.Secs {
+			if s.Vol != nil {
+				largeForms(r, s.Vol, force)
+			}
+		}
+	}
+}
+
+// directedLargeForm: one FFSv3 volume with a driver in the large form holding two sections, an opaque
+// large-form file and a plain file.
+func directedLargeForm() []byte {
+	f1 := &uefigen.File{Type: 7, State: 0xF8, Attr: 0x40, LargeForm: true,
+		Secs: []*uefigen.Sec{{Type: 0x10, Body: []byte("MZ-large-form")}, {Type: 0x19, Body: []byte{1, 2, 3}}}}
+	f1.GUID[0] = 0xA0
+	f2 := &uefigen.File{Type: 1, State: 0xF8, LargeForm: true, Body: []byte{9, 8, 7, 6}}
+	f2.GUID[0] = 0xA1
+	f3 := &uefigen.File{Type: 9, State: 0xF8, Secs: []*uefigen.Sec{{Type: 0x19, Body: []byte{5, 5}}}}
+	f3.GUID[0] = 0xA2
+	v := &uefigen.Vol{FSGUID: uefigen.FFS3, Attrs: 0x800 | 0x4FEFF, Revision: 2, BlockSize: 64, FreeSpace: 100,
+		Files: []*uefigen.File{f1, f2, f3}}
+	img, _ := uefigen.EmitVol(v)
+	return img
+}
+
 func wellFormed(reg *uefigen.Region) {
 	for _, e := range reg.Elems {
 		if e.Vol != nil {
@@ -347,6 +391,14 @@ func gen(r *Rng, tier string, emit Emit) {
 		emit("P", "p_detect", H(img), "file-header", N(uint64(base)), N(uint64(base+21)), H([]byte{0x00, 0xFE}))
 	}
 	emit("P", "p_detect_built", "pad16m")
+	// directed: files in the large form below 16 MiB, with and without sections
+	{
+		img := directedLargeForm()
+		emit("P", "p_no_false_alarm", H(img))
+		emit("P", "p_saved_clean", H(img))
+		emit("C", "validate", H(img))
+		emit("C", "save", H(img))
+	}
 	for it := 0; it < n; it++ {
 		rr := r.Fork(uint64(it))
 		o := uefigen.Opts{MaxDepth: rr.Pick(0, 0, 1, 2), Strings: true, Alignments: rr.Chance(1, 2), BigBodies: rr.Chance(1, 6)}
@@ -355,10 +407,17 @@ func gen(r *Rng, tier string, emit Emit) {
 		if rr.Chance(1, 4) {
 			v := uefigen.GenVol(rr, o, 0)
 			wellFormedVol(v)
+			largeForms(rr.Fork(0xC09C), v, it%3 == 0)
 			img, fields = uefigen.EmitVol(v)
 		} else {
 			reg := uefigen.GenRegion(rr, o)
 			wellFormed(reg)
+			lr := rr.Fork(0xC09C)
+			for _, e := range reg.Elems {
+				if e.Vol != nil {
+					largeForms(lr, e.Vol, it%3 == 0)
+				}
+			}
 			img, fields = uefigen.EmitRegion(reg)
 		}
 		if len(img) > 10000 || len(img) == 0 {
@@ -368,6 +427,9 @@ func gen(r *Rng, tier string, emit Emit) {
 		emit("P", "p_no_false_alarm", H(img))
 		emit("P", "p_saved_clean", H(img))
 		emit("C", "validate", H(img))
+		if len(img) <= 6000 {
+			emit("C", "save", H(img)) // the bytes fiano saves, against the model's assembler
+		}
 		ps := protectedPositions(img, fields)
 		if len(ps) == 0 {
 			continue
